@@ -6,6 +6,7 @@ import importlib.util
 import re
 import typing as t
 
+from .. import anchors
 from ..cfg import CFG, Node, cfg_of, node_exprs, walk_no_nested
 from ..model import AnalysisError, FuncInfo, Model, ancestors, unparse
 from ..norm import Normalizer
@@ -46,7 +47,8 @@ def _literal_strings(model: Model, modname: str, name: str) -> t.List[str]:
 def rule_c15_r1(model: Model) -> RuleResult:
     r = RuleResult('C15-R1', 'every rename style has exactly one joiner, every class layout is handled, one renaming implementation', floor=4)
     styles = _literal_strings(model, 'pane.field', 'RenameStyle')
-    tbl = model.table('pane.field', '_CONVERT_FNS')
+    jt = anchors.short(anchors.joiner_table(model))
+    tbl = model.table('pane.field', jt)
     if not isinstance(tbl, ast.Dict):
         raise AnalysisError("pane.field._CONVERT_FNS is not a dict display")
     keys = [k.value for k in tbl.keys if isinstance(k, ast.Constant)]
@@ -74,7 +76,7 @@ def rule_c15_r1(model: Model) -> RuleResult:
     users = set()
     for f in model.all_functions():
         for x in ast.walk(f.node):
-            if isinstance(x, ast.Name) and x.id == '_CONVERT_FNS' and model.enclosing_function(x) is f:
+            if isinstance(x, ast.Name) and x.id == jt and model.enclosing_function(x) is f:
                 users.add(f.qualname)
     if users == {'pane.field.rename_field'}:
         r.ok()
@@ -122,106 +124,301 @@ def rule_c15_r2(model: Model) -> RuleResult:
     return r
 
 
+def _follow(cfg: CFG, node: Node, e: ast.AST) -> t.Tuple[ast.AST, Node]:
+    """Follow plain names to the single assignment that defines them (value expression, defining node)."""
+    seen = 0
+    while isinstance(e, ast.Name) and seen < 8:
+        defs = cfg.reaching().at(node, e.id)
+        if len(defs) != 1 or defs[0].kind not in ('assign', 'walrus') or defs[0].value is None or defs[0].path:
+            break
+        e, node = defs[0].value, defs[0].node
+        seen += 1
+    return e, node
+
+
+def _strip_seq(e: ast.AST) -> ast.AST:
+    while isinstance(e, ast.Call) and isinstance(e.func, ast.Name) and e.func.id in ('list', 'tuple') and len(e.args) == 1 and not e.keywords:
+        e = e.args[0]
+    return e
+
+
+class _BoundsInterp:
+    """One iteration of the positional-bounds loop, interpreted over the Boolean attributes of an abstract field
+    (init, kw_only, has_default) and the 'an optional field was seen' flag.  Conditions the interpreter cannot decide fork."""
+
+    def __init__(self, model: Model, f: FuncInfo, loop: ast.For, min_name: str, max_name: str):
+        self.model, self.f, self.loop = model, f, loop
+        self.cfg = cfg_of(model, f)
+        self.nz = Normalizer(model, f, self.cfg, param_map=_pm(f), inline_unique_methods=False)
+        self.min_name, self.max_name = min_name, max_name
+        if not isinstance(loop.target, ast.Name):
+            raise AnalysisError(f"{f.loc(loop)}: bounds loop target is not a name")
+        self.var = loop.target.id
+
+    def atom(self, test: ast.expr, cfgd: t.Dict[str, bool], flags: t.Dict[str, bool]) -> t.Optional[bool]:
+        if isinstance(test, ast.Name) and test.id in flags:
+            return flags[test.id]
+        if isinstance(test, ast.Constant):
+            return bool(test.value)
+        n = self.cfg.node_of(test)
+        if n is None:
+            return None
+        text, pos = self.nz.literal(test, n)
+        val: t.Optional[bool] = None
+        if re.match(r'^TRUTHY\(ELEM\(.*\)\.init\)$', text):
+            val = cfgd['init']
+        elif re.match(r'^TRUTHY\(ELEM\(.*\)\.kw_only\)$', text):
+            val = cfgd['kw']
+        elif re.match(r'^(TRUTHY\()?ELEM\(.*\)\.has_default\(\)\)?$', text) or \
+                re.match(r'^\(not ELEM\(.*\)\.default is [\w.]*_MISSING or not ELEM\(.*\)\.default_factory is None\)$', text):
+            val = cfgd['dflt']
+        if val is None:
+            return None
+        return val if pos else not val
+
+    def truth(self, test: ast.expr, cfgd: t.Dict[str, bool], flags: t.Dict[str, bool], forks: t.Dict[str, bool]) -> bool:
+        if isinstance(test, ast.UnaryOp) and isinstance(test.op, ast.Not):
+            return not self.truth(test.operand, cfgd, flags, forks)
+        if isinstance(test, ast.BoolOp):
+            whole = self.atom(test, cfgd, flags)
+            if whole is not None:
+                return whole
+            if isinstance(test.op, ast.And):
+                for v in test.values:
+                    if not self.truth(v, cfgd, flags, forks):
+                        return False
+                return True
+            for v in test.values:
+                if self.truth(v, cfgd, flags, forks):
+                    return True
+            return False
+        a = self.atom(test, cfgd, flags)
+        if a is not None:
+            return a
+        key = unparse(test)
+        if key not in forks:
+            raise _NeedFork(key)
+        return forks[key]
+
+    def run(self, cfgd: t.Dict[str, bool], seen: bool, flag_names: t.Set[str]) -> t.List[t.Tuple[int, bool, bool, t.Optional[str]]]:
+        """All outcomes (max delta, min := max after the last increment, flag afterwards, raised class) over the undecided conditions."""
+        outs = []
+        pending: t.List[t.Dict[str, bool]] = [{}]
+        while pending:
+            forks = pending.pop()
+            try:
+                outs.append(self._run(cfgd, seen, flag_names, forks))
+            except _NeedFork as nf:
+                if len(forks) > 4:
+                    raise AnalysisError(f"{self.f.loc(self.loop)}: bounds loop depends on too many undecided conditions")
+                pending.append({**forks, nf.key: True})
+                pending.append({**forks, nf.key: False})
+        return outs
+
+    def _run(self, cfgd: t.Dict[str, bool], seen: bool, flag_names: t.Set[str], forks: t.Dict[str, bool]) -> t.Tuple[int, bool, bool, t.Optional[str]]:
+        st = {'delta': 0, 'min_at': None, 'raised': None}
+        flags = {nm: seen for nm in flag_names}
+
+        def block(body: t.Sequence[ast.stmt]) -> bool:
+            """False when the iteration ended (continue / raise)."""
+            for s_ in body:
+                if isinstance(s_, ast.If):
+                    if not block(s_.body if self.truth(s_.test, cfgd, flags, forks) else s_.orelse):
+                        return False
+                elif isinstance(s_, ast.Continue):
+                    return False
+                elif isinstance(s_, ast.Raise):
+                    e = s_.exc.func if isinstance(s_.exc, ast.Call) else s_.exc
+                    q = self.model.resolve(e, self.f.module, self.f) if e is not None else None
+                    st['raised'] = (q or (unparse(e) if e is not None else '?')).replace('builtins.', '')
+                    return False
+                elif isinstance(s_, ast.AugAssign) and isinstance(s_.target, ast.Name) and isinstance(s_.op, ast.Add) \
+                        and isinstance(s_.value, ast.Constant) and isinstance(s_.value.value, int):
+                    if s_.target.id == self.max_name:
+                        st['delta'] += s_.value.value
+                    elif s_.target.id == self.min_name:
+                        raise AnalysisError(f"{self.f.loc(s_)}: the required count is incremented directly; not a form the bounds analysis models")
+                    else:
+                        raise AnalysisError(f"{self.f.loc(s_)}: unexpected counter {s_.target.id}")
+                elif isinstance(s_, ast.Assign) and len(s_.targets) == 1 and isinstance(s_.targets[0], ast.Name):
+                    tg = s_.targets[0].id
+                    if tg == self.min_name and isinstance(s_.value, ast.Name) and s_.value.id == self.max_name:
+                        st['min_at'] = st['delta']
+                    elif tg in flags and isinstance(s_.value, ast.Constant) and isinstance(s_.value.value, bool):
+                        flags[tg] = s_.value.value
+                    elif tg == self.max_name and isinstance(s_.value, ast.BinOp) and isinstance(s_.value.op, ast.Add) \
+                            and {unparse(s_.value.left), unparse(s_.value.right)} == {self.max_name, '1'}:
+                        st['delta'] += 1
+                    else:
+                        raise AnalysisError(f"{self.f.loc(s_)}: statement `{unparse(s_)}` is not modelled by the bounds analysis")
+                elif isinstance(s_, (ast.Pass,)) or (isinstance(s_, ast.Expr) and isinstance(s_.value, ast.Constant)):
+                    continue
+                else:
+                    raise AnalysisError(f"{self.f.loc(s_)}: statement `{unparse(s_)[:60]}` is not modelled by the bounds analysis")
+            return True
+        block(self.loop.body)
+        flag_after = any(flags.values()) if flags else seen
+        return (st['delta'], st['min_at'] is not None and st['min_at'] == st['delta'], flag_after, st['raised'])
+
+
+class _NeedFork(Exception):
+    def __init__(self, key: str):
+        self.key = key
+
+
 def rule_c15_r3(model: Model) -> RuleResult:
     r = RuleResult('C15-R3', 'positional bounds count the positional init fields, after keyword-only fields were moved last', floor=4)
     f = model.func(f'{CLS}._process')
     cfg = cfg_of(model, f)
     nz = Normalizer(model, f, cfg, param_map=_pm(f))
     r.analysed.add(f.qualname)
-    loops = [n for n in cfg.live_nodes() if n.kind == 'iter']
-    # the bound variables and the field list are identified through the PaneInfo(...) record they end up in
-    min_name = max_name = fields_name = None
-    for c in ast.walk(f.node):
-        if isinstance(c, ast.Call) and unparse(c.func) == 'PaneInfo':
-            for k in c.keywords:
-                if k.arg == 'pos_args' and isinstance(k.value, ast.Tuple) and len(k.value.elts) == 2 and all(isinstance(e, ast.Name) for e in k.value.elts):
-                    min_name, max_name = k.value.elts[0].id, k.value.elts[1].id
-                if k.arg == 'fields':
-                    nm = [x.id for x in ast.walk(k.value) if isinstance(x, ast.Name) and x.id not in ('tuple', 'list')]
-                    fields_name = nm[0] if nm else None
-    if min_name is None or fields_name is None:
-        raise AnalysisError(f"{f.loc()}: _process: PaneInfo(... fields=..., pos_args=(min, max)) not found")
-    bounds = None
-    for lp in loops:
-        body = [n for n in cfg.live_nodes() if lp.ast in n.loop_of]
-        if any(n.kind == 'stmt' and isinstance(n.ast, ast.AugAssign) and unparse(n.ast.target) == max_name for n in body):
-            bounds = lp
-    if bounds is None:
-        raise AnalysisError(f"{f.loc()}: _process: loop computing the positional bounds not found")
-    body = [n for n in cfg.live_nodes() if bounds.ast in n.loop_of]
-    inc = [n for n in body if n.kind == 'stmt' and isinstance(n.ast, ast.AugAssign) and unparse(n.ast.target) == max_name][0]
-    lits = set()
-    for a in cfg.nodes:
-        if a.kind == 'cond':
-            for lb in ('T', 'F'):
-                if a.edge(lb) and cfg.edge_dominates(a, lb, inc):
-                    text, pos = nz.literal(a.ast, a)
-                    lits.add(('' if pos == (lb == 'T') else 'not ') + text)
+    # the bounds and the field list are identified through the PaneInfo(...) record they end up in
+    store = None
+    info = None
+    for n in cfg.live_nodes():
+        for root in node_exprs(n):
+            for c in walk_no_nested(root):
+                if isinstance(c, ast.Call) and (model.resolve(c.func, f.module, f) or '').endswith('.PaneInfo'):
+                    store, info = n, c
+    if store is None or info is None:
+        raise AnalysisError(f"{f.loc()}: _process: PaneInfo(...) construction not found")
+    kws = {k.arg: k.value for k in info.keywords if k.arg}
+    if 'pos_args' not in kws or 'fields' not in kws:
+        raise AnalysisError(f"{f.loc(info)}: _process: PaneInfo(... fields=..., pos_args=...) keywords not found")
+    fields_e = _strip_seq(kws['fields'])
+    fields_form = nz.expr(fields_e, store)
+    # --- where the bounds are computed
+    pe, pnode = _follow(cfg, store, kws['pos_args'])
+    bf, bcfg, loop_iter_ok = f, cfg, None
+    if isinstance(pe, ast.Tuple) and len(pe.elts) == 2 and all(isinstance(e, ast.Name) for e in pe.elts):
+        min_name, max_name = pe.elts[0].id, pe.elts[1].id      # type: ignore[attr-defined]
+        at = pnode
+    elif isinstance(pe, ast.Call):
+        q = model.resolve(pe.func, f.module, f)
+        g = model.functions.get(q or '')
+        if g is None or g.cls is not None:
+            raise AnalysisError(f"{f.loc(pe)}: positional bounds come from `{unparse(pe.func)}`, which cannot be resolved to a module-level function")
+        bf, bcfg = g, cfg_of(model, g)
+        rets = [n for n in bcfg.live_nodes() if n.kind == 'return' and n.ast is not None and n.ast.value is not None]
+        shapes = set()
+        for rn in rets:
+            v, _vn = _follow(bcfg, rn, rn.ast.value)
+            if isinstance(v, ast.Tuple) and len(v.elts) == 2 and all(isinstance(e, ast.Name) for e in v.elts):
+                shapes.add((v.elts[0].id, v.elts[1].id))      # type: ignore[attr-defined]
+            else:
+                raise AnalysisError(f"{g.loc(rn.ast)}: bounds helper does not return (min, max) names")
+        if len(shapes) != 1:
+            raise AnalysisError(f"{g.loc()}: bounds helper returns several different pairs")
+        (min_name, max_name) = shapes.pop()
+        at = None
+        # the helper is given the reordered field list
+        arg_forms = [nz.expr(a, pnode) for a in pe.args] + [nz.expr(k.value, pnode) for k in pe.keywords]
+        loop_iter_ok = fields_form in arg_forms or f"tuple({fields_form})" in arg_forms or any(a in (f"LIST({fields_form})",) for a in arg_forms)
+        r.analysed.add(g.qualname)
+    else:
+        raise AnalysisError(f"{f.loc(info)}: pos_args is neither a (min, max) pair of names nor a helper call")
+    loops = [x for x in ast.walk(bf.node) if isinstance(x, ast.For) and model.enclosing_function(x) is bf
+             and any(isinstance(y, (ast.AugAssign, ast.Assign)) and any(isinstance(tg, ast.Name) and tg.id == max_name
+                                                                          for tg in ([y.target] if isinstance(y, ast.AugAssign) else y.targets))
+                     for y in ast.walk(x))]
+    if len(loops) != 1:
+        raise AnalysisError(f"{bf.loc()}: {len(loops)} loops advance the positional bound `{max_name}`; expected one")
+    loop = loops[0]
+    lnode = next((n for n in bcfg.live_nodes() if n.kind == 'iter' and n.ast is loop), None)
+    if lnode is None:
+        raise AnalysisError(f"{bf.loc(loop)}: bounds loop is unreachable")
+    bnz = Normalizer(model, bf, bcfg, param_map=_pm(bf))
+    if bf is f:
+        loop_iter_ok = bnz.expr(_strip_seq(loop.iter), lnode) == fields_form
+    else:
+        # inside the helper the loop runs over the parameter that receives the field list
+        it = _strip_seq(loop.iter)
+        loop_iter_ok = bool(loop_iter_ok) and isinstance(it, ast.Name) and it.id in bf.params
+    # flags: names assigned a Boolean constant inside the loop
+    flag_names = {tg.id for y in ast.walk(loop) if isinstance(y, ast.Assign) and isinstance(y.value, ast.Constant) and isinstance(y.value.value, bool)
+                  for tg in y.targets if isinstance(tg, ast.Name)}
+    # initial values
+    init_ok = True
+    for nm, want in ((min_name, '0'), (max_name, '0'), *((fl, 'False') for fl in sorted(flag_names))):
+        outside = [d for d in bcfg.reaching().at(lnode, nm) if loop not in d.node.loop_of]
+        forms = {bnz._project(d.value, d.path, d.node, 0) if d.kind == 'assign' else '?' for d in outside}
+        if forms != {want}:
+            init_ok = False
     r.instances += 1
-    r.sample({'a field counts as positional when': sorted(lits)})
-    need = {x for x in lits if re.match(r'^TRUTHY\(ELEM\(.*\)\.init\)$', x)}, {x for x in lits if re.match(r'^not TRUTHY\(ELEM\(.*\)\.kw_only\)$', x)}
-    if need[0] and need[1] and len(lits) == 2:
+    if init_ok:
         r.ok()
     else:
-        r.fail(f.qualname, f"counted when {sorted(lits)}", f.loc(inc.ast), "the positional count must include exactly the fields with init=True that are not keyword-only")
-    # min_len advances only for fields without default
-    mins = [n for n in body if n.kind == 'stmt' and isinstance(n.ast, ast.Assign) and unparse(n.ast.targets[0]) == min_name]
+        r.fail(bf.qualname, 'bounds or flag do not start at (0, 0, False)', bf.loc(loop), "the positional bounds are offset from the start")
+    interp = _BoundsInterp(model, bf, loop, min_name, max_name)
+    bad: t.List[str] = []
+    table = []
+    for init in (False, True):
+        for kw in (False, True):
+            for dflt in (False, True):
+                for seen in (False, True):
+                    outs = interp.run({'init': init, 'kw': kw, 'dflt': dflt}, seen, flag_names)
+                    label = f"init={init} kw_only={kw} has_default={dflt} optional_seen={seen}"
+                    table.append((label, sorted(set(outs), key=str)))
+                    noop = (0, False, seen, None)
+                    if not init:
+                        allowed = [{noop}]
+                    elif kw:
+                        allowed = [{noop}] if dflt else [{noop, (0, False, seen, 'TypeError')}]
+                    elif dflt:
+                        allowed = [{(1, False, True, None)}]
+                    elif seen:
+                        allowed = [{(0, False, seen, 'TypeError')}, {(1, False, seen, 'TypeError')}]
+                    else:
+                        allowed = [{(1, True, False, None)}]
+                    got = set(outs)
+                    # a raise may happen before or after bookkeeping; only the raised class matters then
+                    norm_got = {(o if o[3] is None else (0, False, seen, o[3])) for o in got}
+                    if not any(norm_got == {(a if a[3] is None else (0, False, seen, a[3])) for a in al} for al in allowed):
+                        bad.append(f"{label}: {sorted(got, key=str)}")
     r.instances += 1
-    if mins:
-        ml = set()
-        for a in cfg.nodes:
-            if a.kind == 'cond':
-                for lb in ('T', 'F'):
-                    if a.edge(lb) and cfg.edge_dominates(a, lb, mins[0]):
-                        text, pos = nz.literal(a.ast, a)
-                        ml.add(('' if pos == (lb == 'T') else 'not ') + text)
-        if any('default' in x for x in ml):
-            r.ok()
-        else:
-            r.fail(f.qualname, f"min_len set when {sorted(ml)}", f.loc(mins[0].ast), "the required positional count is not tied to fields without a default")
+    r.sample({'per-field effect on (max, min:=max, optional seen, raise)': [f"{k}: {v}" for k, v in table[:6]]})
+    if bad:
+        r.fail(bf.qualname, 'positional count: ' + '; '.join(bad)[:300], bf.loc(loop),
+               "the positional count must include exactly the fields with init=True that are not keyword-only; the required count "
+               "advances only for fields without default; a mandatory field after an optional one, or a mandatory keyword-only field "
+               "with the tuple layout, is refused with TypeError")
     else:
-        r.fail(f.qualname, 'min_len never advanced', f.loc(), "required positional fields are not counted")
-    # the keyword-only reorder precedes the bounds loop and the PaneInfo store, and is a stable partition
-    reorder = [n for n in cfg.live_nodes() if n.kind == 'stmt' and isinstance(n.ast, ast.Assign) and unparse(n.ast.targets[0]) == fields_name
-               and 'kw_only' in unparse(n.ast.value)]
+        r.ok()
     r.instances += 1
-    if len(reorder) != 1:
-        r.fail(f.qualname, f"{len(reorder)} keyword-only reorder statements", f.loc(), "keyword-only fields are not moved behind the positional ones")
+    if loop_iter_ok:
+        r.ok()
     else:
-        val = reorder[0].ast.value
-        parts = []
-        pieces: t.List[ast.AST] = []
-        if isinstance(val, (ast.List, ast.Tuple)) and len(val.elts) == 2 and all(isinstance(e, ast.Starred) for e in val.elts):
-            pieces = [e.value for e in val.elts]          # [*a, *b]
-        elif isinstance(val, ast.BinOp) and isinstance(val.op, ast.Add):
-            pieces = [val.left, val.right]                # a + b
-        good = len(pieces) == 2
-        for c in pieces:
-            while isinstance(c, ast.Call) and isinstance(c.func, ast.Name) and c.func.id in ('list', 'tuple') and len(c.args) == 1:
-                c = c.args[0]
-            if isinstance(c, ast.Call) and isinstance(c.func, ast.Name) and c.func.id == 'filter' and len(c.args) == 2 \
-                    and isinstance(c.args[0], ast.Lambda) and c.args[0].args.args:
-                b = {c.args[0].args.args[0].arg: 'λ0'}
-                parts.append((nz.literal(c.args[0].body, reorder[0], b), unparse(c.args[1])))
-            elif isinstance(c, (ast.ListComp, ast.GeneratorExp)) and len(c.generators) == 1 and len(c.generators[0].ifs) == 1 \
-                    and isinstance(c.generators[0].target, ast.Name) and isinstance(c.elt, ast.Name) and c.elt.id == c.generators[0].target.id:
-                b = {c.generators[0].target.id: 'λ0'}
-                parts.append((nz.literal(c.generators[0].ifs[0], reorder[0], b), unparse(c.generators[0].iter)))
-            else:
-                good = False
-        r.sample({'reorder': [(('' if p[1] else 'not ') + p[0], src) for (p, src) in parts]})
-        form = unparse(val)
-        if good and [p for (p, _s) in parts] == [('TRUTHY(λ0.kw_only)', False), ('TRUTHY(λ0.kw_only)', True)] and parts[0][1] == parts[1][1] == fields_name:
-            r.ok()
+        r.fail(bf.qualname, 'bounds are not computed over the stored (reordered) field list', bf.loc(loop),
+               "bounds or stored fields are computed from the un-reordered field list")
+    # --- the stored field list is the stable partition [positional..., keyword-only...] of one source list
+    val, vnode = _follow(cfg, store, fields_e)
+    pieces: t.List[ast.AST] = []
+    if isinstance(val, (ast.List, ast.Tuple)) and len(val.elts) == 2 and all(isinstance(e, ast.Starred) for e in val.elts):
+        pieces = [e.value for e in val.elts]          # type: ignore[attr-defined]
+    elif isinstance(val, ast.BinOp) and isinstance(val.op, ast.Add):
+        pieces = [val.left, val.right]
+    parts = []
+    good = len(pieces) == 2
+    for c0 in pieces:
+        c, cn = _follow(cfg, vnode, _strip_seq(c0))
+        c = _strip_seq(c)
+        if isinstance(c, ast.Call) and isinstance(c.func, ast.Name) and c.func.id == 'filter' and len(c.args) == 2 \
+                and isinstance(c.args[0], ast.Lambda) and c.args[0].args.args:
+            b = {c.args[0].args.args[0].arg: 'λ0'}
+            parts.append((nz.literal(c.args[0].body, cn, b), nz.expr(c.args[1], cn)))
+        elif isinstance(c, (ast.ListComp, ast.GeneratorExp)) and len(c.generators) == 1 and len(c.generators[0].ifs) == 1 \
+                and isinstance(c.generators[0].target, ast.Name) and isinstance(c.elt, ast.Name) and c.elt.id == c.generators[0].target.id:
+            b = {c.generators[0].target.id: 'λ0'}
+            parts.append((nz.literal(c.generators[0].ifs[0], cn, b), nz.expr(c.generators[0].iter, cn)))
         else:
-            r.fail(f.qualname, f"fields = {form[:160]}", f.loc(reorder[0].ast),
-                   "the reorder is not the stable partition [positional..., keyword-only...] of the merged fields")
-        store = [n for n in cfg.live_nodes() if n.kind == 'stmt' and isinstance(n.ast, ast.Assign) and 'PaneInfo(' in unparse(n.ast.value)]
-        r.instances += 1
-        if store and cfg.node_dominates(reorder[0], bounds) and cfg.node_dominates(reorder[0], store[0]):
-            r.ok()
-        else:
-            r.fail(f.qualname, 'reorder after bounds / PaneInfo', f.loc(reorder[0].ast), "bounds or stored fields are computed from the un-reordered field list")
+            good = False
+    r.instances += 1
+    r.sample({'reorder': [(('' if p[1] else 'not ') + p[0], src[:60]) for (p, src) in parts]})
+    if good and [p for (p, _s) in parts] == [('TRUTHY(λ0.kw_only)', False), ('TRUTHY(λ0.kw_only)', True)] and parts[0][1] == parts[1][1]:
+        r.ok()
+    else:
+        r.fail(f.qualname, f"fields = {unparse(val)[:160]}", f.loc(vnode.ast) if vnode.ast is not None else f.loc(),
+               "the reorder is not the stable partition [positional..., keyword-only...] of the merged fields")
     return r
 
 
@@ -253,7 +450,7 @@ def _read_hash_table(d: ast.Dict) -> t.Dict[t.Tuple[bool, bool, bool, bool], str
 
 def rule_c16_r1(model: Model) -> RuleResult:
     r = RuleResult('C16-R1', 'the hash rule table equals the standard library dataclass table, cell by cell', floor=16)
-    tbl = model.table(CLS, '_hash_action')
+    tbl = model.table(CLS, anchors.short(anchors.hash_table(model)))
     if not isinstance(tbl, ast.Dict):
         raise AnalysisError("pane.classes._hash_action is not a dict display")
     ours = _read_hash_table(tbl)
@@ -277,7 +474,7 @@ def rule_c16_r1(model: Model) -> RuleResult:
     for n in cfg.live_nodes():
         for root in node_exprs(n):
             for s in walk_no_nested(root):
-                if isinstance(s, ast.Subscript) and model.resolve(s.value, f.module, f) == f'{CLS}._hash_action':
+                if isinstance(s, ast.Subscript) and model.resolve(s.value, f.module, f) == anchors.hash_table(model):
                     idx = nz.expr(s.slice, n)
     want = '(bool(cls.__pane_info__.opts.unsafe_hash), bool(cls.__pane_info__.opts.eq), bool(cls.__pane_info__.opts.frozen), '
     r.sample({'lookup key': idx})
